@@ -115,6 +115,26 @@ fn check_lunar_year(ctx: &Ctx, civ: &Civil, t: &LunTable, y: isize, loc: &mut Lo
     if o0 < 0 || (o0 as usize + l.days as usize) > civ.len() {
       continue;
     }
+    // the listed days really are the days the calendar assigns to this month: first, middle and last day convert back
+    if !((7..=26).contains(&l.y) || (235..=241).contains(&l.y)) {
+      loc.transitions += 1;
+      let r = guard(|| {
+        let ds = LunarMonth::from_ym(l.y as isize, l.m as isize).get_days();
+        [0usize, 14, ds.len() - 1].iter().map(|&k| {
+          let back = ds[k].get_solar_day().get_lunar_day();
+          (back.get_year() as i32, back.get_month() as i8, back.get_day())
+        }).collect::<Vec<_>>()
+      });
+      match r {
+        Ok(b) => {
+          let want = vec![(l.y, l.m, 1usize), (l.y, l.m, 15), (l.y, l.m, l.days as usize)];
+          if b != want {
+            ctx.violation("lunar_month_days", l.key(), format!("listed days 1, 15 and {} convert to civil dates whose lunar date is {:?}", l.days, b), vec!["lmonth".to_string(), l.y.to_string(), l.m.to_string()]);
+          }
+        }
+        Err(m) => ctx.violation("lunar_month_days", l.key(), format!("panics: {}", m), vec!["lmonth".to_string(), l.y.to_string(), l.m.to_string()]),
+      }
+    }
     let r = guard(|| LunarMonth::from_ym(l.y as isize, l.m as isize).get_days().iter().map(|d| (d.get_year() as i32, d.get_month() as i8, d.get_day(), ymd_of(&d.get_solar_day()))).collect::<Vec<_>>());
     let rp = vec!["lmonth".to_string(), l.y.to_string(), l.m.to_string()];
     match r {
